@@ -169,6 +169,7 @@ def run(tier):
     from . import c10, c20
     from .common import Relabel
     c10._d_plain_drivers(Relabel(chk, {"C10.d": "C02.c-driver"}), tier)
+    c10._a_propagate_options(Relabel(chk, {"C10.d": "C02.e-forward"}))
     # a cached propagation is the one computed with the requested method and order
     c20._b_key_params(Relabel(chk, {"C20.b": "C02.d-cache"}), [x for x in c20._sites() if x.mod.name.endswith("services.system")])
     return chk
